@@ -5,6 +5,8 @@ Bounded-exhaustive: all nested dict/list/tuple structures from a small grammar (
 sample sizes x batch sizes x ALL boolean masks; reference = plain numpy slicing.
 File round trips: text / npy / npz x all particle orders x multi-file splits; save_data /
 load_data; CalAngleData.savetxt / SimpleData.savetxt; LazyCall vs eager."""
+import contextlib
+import io
 import itertools
 import os
 import shutil
@@ -356,6 +358,100 @@ def file_work(payload):
     return res.done()
 
 
+def cached_cfg_work(payload):
+    """cached-data files of the configuration layer: loader without cache == loader that writes the cache == loader that
+    reads it back, for every combination of the data options that change weights; plus file-backed lazy data under every
+    sequence of batch sizes on ONE object"""
+    from tf_pwa.config_loader import ConfigLoader
+    from tf_pwa.data import HeavyCall, LazyCall, LazyFile, data_merge, data_to_numpy, flatten_dict_data, load_dat_file
+    from mc.lib import kin, zoo
+
+    res = Res()
+    tmp = tempfile.mkdtemp(prefix="c18c_", dir=os.environ.get("VERIF_TMP", "/tmp"))
+    try:
+        ms = [zoo.M_FIN[x] for x in "BCD"]
+        ev = kin.lattice3(zoo.M_TOP, ms, 6, orientations=3)
+        arr = np.stack(ev, axis=1)  # (N, 3, 4)
+        files = {}
+        assert len(arr) >= 29, len(arr)
+        for name, sl in (("data", slice(0, 12)), ("phsp", slice(8, 24)), ("bg", slice(24, 29))):
+            files[name] = os.path.join(tmp, name + ".dat")
+            np.savetxt(files[name], arr[sl].reshape(-1, 4))
+
+        def leaves(all_data):
+            ret = {}
+            for name, groups in zip(["data", "phsp", "bg"], all_data):
+                for i, g in enumerate(groups or []):
+                    for k, v in flatten_dict_data(data_to_numpy(dict(g))).items():
+                        ret["%s[%d]/%s" % (name, i, k)] = np.asarray(v)
+            return ret
+
+        k = 0
+        for weight_scale, bg_weight, extra in itertools.product((False, True), (0.5, 1.0), ({}, {"random_z": False}, {"center_mass": True})):
+            k += 1
+            cache = os.path.join(tmp, "all_%d.npy" % k)
+
+            def cfg(cached):
+                d = {"dat_order": ["B", "C", "D"], "data": [files["data"]], "phsp": [files["phsp"]], "bg": [files["bg"]], "bg_weight": bg_weight, "weight_scale": weight_scale, **extra}
+                if cached:
+                    d["cached_data"] = cache
+                return zoo.card3(data=d)
+
+            case = {"part": "cached", "weight_scale": weight_scale, "bg_weight": bg_weight, "extra": extra}
+            res.case(nontrivial_key=("cached", weight_scale, bg_weight, repr(extra)), outcome=("cached", weight_scale))
+            try:
+                with contextlib.redirect_stdout(io.StringIO()):
+                    ref = leaves(ConfigLoader(cfg(False)).get_all_data())
+                    wr = leaves(ConfigLoader(cfg(True)).get_all_data())
+                    rd = leaves(ConfigLoader(cfg(True)).get_all_data())
+                    rd2 = leaves(ConfigLoader(cfg(True)).get_all_data())
+            except Exception as e:
+                res.violation("cached:exception", "cached_data with weight_scale=%r bg_weight=%r %r raised %s: %s" % (weight_scale, bg_weight, extra, type(e).__name__, str(e)[:200]), case)
+                continue
+            if not os.path.exists(cache):
+                res.violation("cached:not-written", "cached_data file was not written", case)
+            for tag, got in (("written", wr), ("read-back", rd), ("read-back-twice", rd2)):
+                if set(got) != set(ref):
+                    res.violation("cached:%s:keys" % tag, "leaves differ: %r" % (sorted(set(got) ^ set(ref))[:4],), case)
+                    continue
+                for key in sorted(ref):
+                    if ref[key].shape != got[key].shape or not np.allclose(ref[key], got[key], rtol=1e-13, atol=0):
+                        res.violation("cached:%s" % tag, "weight_scale=%r bg_weight=%r %r: leaf %s of the %s data differs from the data loaded without a cache (%r vs %r)" % (weight_scale, bg_weight, extra, key, tag, np.asarray(got[key]).reshape(-1)[:3].tolist(), ref[key].reshape(-1)[:3].tolist()), case)
+                        break
+        # ---- file-backed lazy data, every sequence of batch sizes of length <= 3 on one object
+        N = 10
+        p4 = arr[:N].reshape(-1, 4)
+        fname = os.path.join(tmp, "p4.npy")
+        np.save(fname, p4)
+        weight = np.arange(N, dtype="float64") + 1.0
+
+        def pre(x):
+            return {"m2": x["p4"]["B"][:, 0] ** 2 - x["p4"]["C"][:, 1] * x["p4"]["D"][:, 2]}
+
+        x = load_dat_file(fname, ["B", "C", "D"], mmap_mode="r")
+        eager = {k_: np.asarray(v) for k_, v in pre({"p4": x}).items()}
+        sizes = (4, 6, 3, 65000)
+        for seq in [s_ for n_ in (1, 2, 3) for s_ in itertools.product(sizes, repeat=n_)]:
+            lazy = LazyCall(HeavyCall(pre), LazyFile({"p4": x}))
+            lazy["weight"] = weight
+            case = {"part": "lazyfile", "seq": list(seq)}
+            res.case(nontrivial_key=("lazyfile", seq), outcome=("lazyfile", len(seq)))
+            for step, b in enumerate(seq):
+                try:
+                    pieces = [data_to_numpy(i) for i in lazy.as_dataset(b)]
+                    merged = data_to_numpy(data_merge(*pieces))
+                    ok = (np.asarray(merged["m2"]).shape == eager["m2"].shape and np.array_equal(merged["m2"], eager["m2"]) and np.array_equal(merged["weight"], weight)
+                          and all(len(pc["m2"]) == len(pc["weight"]) for pc in pieces) and [len(pc["weight"]) for pc in pieces] == [min(b, N - i) for i in range(0, N, b)])
+                except Exception as e:
+                    ok = "%s: %s" % (type(e).__name__, str(e)[:120])
+                if ok is not True:
+                    res.violation("lazyfile:batches", "LazyCall over LazyFile: batch sizes %r on one object, step %d (batch %d): %s" % (list(seq), step, b, "content / piece sizes differ from eager" if ok is False else ok), case)
+                    break
+    finally:
+        shutil.rmtree(tmp, ignore_errors=True)
+    return res.done()
+
+
 def lazy_work(payload):
     from tf_pwa.data import LazyCall, batch_call, data_merge, data_shape, data_split
 
@@ -433,7 +529,7 @@ def run(tier, seed, only=None):
     if seed:
         st = st[seed % len(st):] + st[: seed % len(st)]
     rep.extra["structures"] = len(st)
-    parts = only or ["struct", "big", "file", "lazy"]
+    parts = only or ["struct", "big", "file", "cached", "lazy"]
     out = []
     Ns = [1, 2, 5] if tier == "quick" else [1, 2, 5, 7]
     if "struct" in parts:
@@ -444,6 +540,8 @@ def run(tier, seed, only=None):
         out += pool.run_items("mc.props.C18", "big_work", [{"structs": emp[i::7]} for i in range(7) if emp[i::7]])
     if "file" in parts:
         out += pool.run_items("mc.props.C18", "file_work", [{"names": ["B", "C", "D"], "N": 5, "structs": st[::4]}, {"names": ["B", "C", "D", "E"], "N": 3}])
+    if "cached" in parts:
+        out += pool.run_items("mc.props.C18", "cached_cfg_work", [{}])
     if "lazy" in parts:
         ds = [s for s in st if s[0] == "dict"]
         out += pool.run_items("mc.props.C18", "lazy_work", [{"structs": ds[i::14], "Ns": [2, 5]} for i in range(14) if ds[i::14]])
@@ -453,6 +551,8 @@ def run(tier, seed, only=None):
 
 
 def replay(case):
+    if case.get("part") in ("cached", "lazyfile"):
+        return [v for v in cached_cfg_work({})["viol"] if v["case"].get("part") == case["part"]]
     part = case["part"]
 
     def tup(d):
